@@ -42,6 +42,7 @@ type runner struct {
 	ver     protocol.Version
 	// short header
 	ua    [2]*handshake.VerifUA
+	suite int
 	sver  protocol.Version
 	pkts  map[int]*pkt
 	reset func()
@@ -223,7 +224,7 @@ func (rn *runner) GenOp(r *vh.Rand, i int) string {
 		if r.Chance(6) {
 			res = 1 + r.Intn(3)
 		}
-		return fmt.Sprintf("lseal %d %d %s %s %s %s %d %d %s %d", id, dir, typ, hx(r.Bytes(r.Intn(21))), hx(r.Bytes(r.Intn(21))), token, pnLen, pn, hx(rn.genPayload(r, pnLen)), res)
+		return fmt.Sprintf("lseal %d %d %s %s %s %s %d %d %s %d", id, dir, typ, hx(r.Bytes(r.Intn(21))), hx(r.Bytes(r.Intn(21))), token, pnLen, pn, hx(rn.genPayload(r, pnLen)), res) + fmt.Sprintf(" %d", r.Intn(2))
 	case 1: // short seal
 		dir := r.Intn(2)
 		pnLen := 1 + r.Intn(4)
@@ -235,7 +236,7 @@ func (rn *runner) GenOp(r *vh.Rand, i int) string {
 		if r.Chance(6) {
 			res = 1 + r.Intn(3)
 		}
-		return fmt.Sprintf("sseal %d %d %s %d %d %s %d %d", id, dir, hx(r.Bytes(r.Intn(21))), pnLen, pn, hx(rn.genPayload(r, pnLen)), res, r.Intn(2))
+		return fmt.Sprintf("sseal %d %d %s %d %d %s %d %d %d", id, dir, hx(r.Bytes(r.Intn(21))), pnLen, pn, hx(rn.genPayload(r, pnLen)), res, r.Intn(2), r.Intn(2))
 	default:
 		if len(rn.ids) == 0 {
 			return fmt.Sprintf("linit %d %s", 1+r.Intn(2), hx(r.Bytes(r.Intn(21))))
@@ -247,9 +248,9 @@ func (rn *runner) GenOp(r *vh.Rand, i int) string {
 		}
 		rn.now += r.Range(0, 1_000_000)
 		if p.long {
-			return fmt.Sprintf("lopen %d %s", id, rn.genMut(r, p))
+			return fmt.Sprintf("lopen %d %s %d", id, rn.genMut(r, p), r.Intn(2))
 		}
-		return fmt.Sprintf("sopen %d %s %d", id, rn.genMut(r, p), rn.now)
+		return fmt.Sprintf("sopen %d %s %d %d", id, rn.genMut(r, p), rn.now, r.Intn(2))
 	}
 }
 
@@ -282,6 +283,7 @@ func (rn *runner) sinit(suite int, ver int64) string {
 	rn.Close()
 	rn.reset = handshake.SetKeyUpdateInterval(1 << 40)
 	rn.sver = verOf(ver)
+	rn.suite = suite % 3
 	var sec [2][]byte
 	for i := 0; i < 2; i++ {
 		sec[i] = make([]byte, 32)
@@ -374,7 +376,7 @@ func (rn *runner) Exec(op string) string {
 		copy(raw, hdr)
 		copy(raw[len(hdr):], payload)
 		mask := "-"
-		if len(hdr)+len(ct) >= len(hdr)-int(pnLen)+20 {
+		if len(hdr)+len(ct) >= len(hdr)-int(pnLen)+20 && n(11)&1 == 0 {
 			sealed := append(append([]byte{}, hdr...), ct...)
 			off := len(hdr) - int(pnLen)
 			mask = hx(handshake.VerifHPMask(sealer, true, sealed[off+4:off+20]))
@@ -432,7 +434,7 @@ func (rn *runner) Exec(op string) string {
 		}
 		off := int(hdr.ParsedLen())
 		mask := "-"
-		if len(pdata) >= off+20 {
+		if len(pdata) >= off+20 && n(4)&1 == 0 {
 			mask = hx(handshake.VerifHPMask(opener, false, pdata[off+4:off+20]))
 		}
 		pre := fmt.Sprintf("off=%d plen=%d mask=%s ", off, len(pdata), mask)
@@ -472,7 +474,8 @@ func (rn *runner) Exec(op string) string {
 		copy(raw, hdr)
 		copy(raw[len(hdr):], payload)
 		mask := "-"
-		if len(hdr)+len(ct) >= len(hdr)-int(pnLen)+20 {
+		// n(9)=1: do not read the mask through the hook (it runs the protector once more)
+		if len(hdr)+len(ct) >= len(hdr)-int(pnLen)+20 && !(n(9)&1 == 1 && rn.suite != 1) {
 			sealed := append(append([]byte{}, hdr...), ct...)
 			off := len(hdr) - int(pnLen)
 			mask = hx(handshake.VerifHPMask(u, true, sealed[off+4:off+20]))
@@ -495,7 +498,7 @@ func (rn *runner) Exec(op string) string {
 		u := rn.ua[ep]
 		off := 1 + p.cidLen
 		mask := "-"
-		if len(data) >= off+20 {
+		if len(data) >= off+20 && !(n(5)&1 == 1 && rn.suite != 1) {
 			mask = hx(handshake.VerifHPMask(u, false, data[off+4:off+20]))
 		}
 		pre := fmt.Sprintf("mask=%s ", mask)
